@@ -127,7 +127,7 @@ def code_to_spec(ctx, arm, ncases):
                 o = arm.armodel_residual(phi, data, float(m), **kw)
                 i2 = arm.armodel_sim(phi, o, float(m), **kw)
             out, inv = _scaled(o, sc), _scaled(i2, sc)
-        except ValueError:
+        except Exception:
             err = True
         same = bool(np.array_equal(data, d0, equal_nan=True) and np.array_equal(phi, p0, equal_nan=True))
         # default arguments: sim_mean defaults to 0 for the simulation and to the mean of the inputs for the residuals,
@@ -140,7 +140,7 @@ def code_to_spec(ctx, arm, ncases):
                 else:
                     mu = float(np.nanmean(data))
                     defaults_ok = bool(np.array_equal(arm.armodel_residual(phi, data), arm.armodel_residual(phi, data, mu, mu), equal_nan=True))
-            except ValueError:
+            except Exception:
                 defaults_ok = False
         rec = {"fn": fn, "c": [int(x) for x in c], "m": m, "ini": ini, "sc": sc, "nanparam": bool(nanparam),
                "data": [NAN if np.isnan(v) else int(v) for v in data], "err": err, "out": out, "inv": inv,
